@@ -154,7 +154,8 @@ Definition step_of_records (recs : list record) (p : prod) (st : sstate) : outco
   end.
 (* all recorded iterations satisfy the progress hypothesis *)
 Definition records_progress (toks : list token) (recs : list record) : bool :=
-  forallb (fun r => match r with (b, _, a) => (b <? a) && (a <=? slen toks) end) recs.
+  let n := slen toks in
+  forallb (fun r => match r with (b, _, a) => (b <? a) && (a <=? n) end) recs.
 Definition replay (toks : list token) (recs : list record) : lres :=
   parse_design_file toks (step_of_records recs).
 
